@@ -25,6 +25,11 @@ Record history := mkHist {
   hi_genesis : block;
   hi_volume : Z;        (* configured GenesisCoinVolume *)
   hi_d0 : dump;         (* after Visor.Init *)
+  (* start-up attempts of a node on a fresh empty database with the same genesis
+     block and some GenesisSignature: (the signature verifies over the genesis
+     header under the configured key, Visor.Init succeeded, block 0 is stored
+     afterwards) *)
+  hi_starts : list (bool * bool * bool);
   (* submitted block, verdict, state after the op, and — when accepted — the
      transactions of the block as re-read from the node's store (an arbitrating
      node stores a filtered, re-ordered body) *)
@@ -148,8 +153,13 @@ Definition c04_test (arb : bool) (ghash : Z) (_ : unit) (prev : dump) (b sb : bl
   | Rejected _ => eqb_dump prev d       (* a rejected block changes nothing *)
   | Crashed => false
   end.
+(* a node starts (appends its genesis block) only with a verifying genesis
+   signature; a refused start stores nothing *)
+Definition start_ok (a : bool * bool * bool) : bool :=
+  let '(sigok, started, stored) := a in
+  (if started then sigok && stored else negb stored).
 Definition pf_c04_hist (h : history) : list Z :=
-  (if d_db_ok (hi_d0 h) && d_sig_ok (hi_d0 h) && (d_stored (hi_d0 h) =? b_hash (hi_genesis h)) &&
+  (if forallb start_ok (hi_starts h) && d_db_ok (hi_d0 h) && d_sig_ok (hi_d0 h) && (d_stored (hi_d0 h) =? b_hash (hi_genesis h)) &&
       (d_head (hi_d0 h) =? b_hash (hi_genesis h)) && (d_seq (hi_d0 h) =? 0) then [] else [0]) ++
   walk unit (c04_test (hi_arb h) (b_hash (hi_genesis h))) (fun _ _ _ _ _ _ => tt) 1 tt (hi_d0 h) (hi_steps h).
 
